@@ -53,7 +53,10 @@ def cases(tier, seed):
                    same_uid=False, outcome=rnd.choice(['success', 'warning']),
                    size=rnd.choice([20000, 60000]), fault=None, align=False, mixed_ts=False,
                    slow=dict(cap=rnd.choice([2048, 8192, 32768]),
-                             stall=rnd.choice([6.0, 12.0, 45.0]), at=rnd.randint(60, 400)),
+                             stall=rnd.choice([6.0, 12.0, 45.0]), at=rnd.randint(60, 400),
+                             # the application has given every socket of the process a
+                             # time-out (longer than any stall here): nothing changes
+                             deftimeout=rnd.choice([None, None, 60.0, 120.0])),
                    seed=seed * 100057 + i)
     # one storage class is received into files, the other in memory, and instances of both
     # follow each other on ONE association
@@ -138,6 +141,8 @@ def run_case(case):
     world = SimWorld('c15/%s' % case['seed'], with_fs=True)
     if case.get('slow'):
         world.net.capacity = case['slow']['cap']
+        if case['slow'].get('deftimeout'):
+            world.net.default_timeout = case['slow']['deftimeout']
     fs = world.fs
     viol = []
     ts = TSS[case['ts']]
